@@ -21,8 +21,8 @@ package zzref
 // Oracle, per frame: no panic; at most one record; a record only if the reference decoder finds the
 // full header chain in that same frame; every record field equals that frame's field.
 //
-// Findings are keyed "<proto>:<kind>:<frame name>[-after-...]" and grouped into root-cause classes
-// "<proto>:<kind>:<reference's reason>". Per class only the C06KeepPerClass smallest witnesses that
+// Findings are keyed "<proto>:<kind>:<frame name>[-after-...]=><what was emitted>" and grouped into root-cause classes
+// "<proto>:<kind>:<reference's reason>" (history-dependent ones: "<proto>:stale"). Per class only the C06KeepPerClass smallest witnesses that
 // differ in the reason's value or the link mode are reported. To make that choice independent of the sharding, families (a) and (c) are *evaluated by
 // every shard* (cheap: a few 10^5 frames) but *counted* only by the shard that owns the case index;
 // (b), (b2) and (d) are evaluated by their owner only and report a witness only for a class that
@@ -296,8 +296,29 @@ func (d *c06Driver) runSeq(m *C06Mode, seq []*C06Frame, from int, canonical, cou
 			if k > 0 {
 				desc += fmt.Sprintf("; the same frame given to a new processor: %s", fresh)
 			}
+			class := m.Proto + ":" + kind + ":" + cls
+			if strings.HasPrefix(kind, "stale") {
+				// one root cause whatever the reference's reason is: a record was emitted although the
+				// decoder that fills its fields did not run on this frame
+				class = m.Proto + ":" + kind
+			}
+			// the key names the witness: the frame (and what preceded it) and what was wrongly emitted
+			emitted := "panic"
+			if out.pan == nil {
+				var p []string
+				for _, r := range out.recs {
+					var q []string
+					for _, fv := range r {
+						if fv[0] != "scan" {
+							q = append(q, fv[0]+"="+fv[1])
+						}
+					}
+					p = append(p, strings.Join(q, ","))
+				}
+				emitted = strings.Join(p, "|")
+			}
 			f := c06Finding{
-				Class: m.Proto + ":" + kind + ":" + cls, Key: m.Proto + ":" + kind + ":" + name, Desc: desc, Detail: detail, Size: len(fr.B) + 4096*k, Ord: ord,
+				Class: class, Key: m.Proto + ":" + kind + ":" + name + "=>" + emitted, Desc: desc, Detail: detail, Size: len(fr.B) + 4096*k, Ord: ord,
 				Replay: map[string]any{"part": d.part, "mode": m.Name, "history_hex": histHex, "frame_hex": DecHex(fr.B), "frame": fr.Name(), "got": out.String(), "reference": ref},
 			}
 			if counted {
